@@ -17,7 +17,10 @@ Pick(S, k) ==   \* k elements of S starting at a seed-dependent index of its can
   ELSE LET q == SetToSeq(S) n == Len(q)
        IN  {q[1 + ((Seed * 7919 + i * 104729) % n)] : i \in 1..k}
 RepValueChoices(g) == Pick(AllValueChoices(g), Reps)
-RepBases(g, w) == Pick(AllBases(g, w), 1)
+RepBases(g, w) ==   \* prefer bases on which libsecp can compute every sum (the converse direction is exercised)
+  LET A == AllBases(g, w)
+      N == {bc \in A : ~Degenerate(bc.body, bc.ctx)}
+  IN  Pick(IF N # {} THEN N ELSE A, 1)
 \* all single corruptions of a representative, and PairK seed-selected second corruptions on top of each
 PairK == IF "TXBAL_PAIRS" \in DOMAIN IOEnv THEN atoi(IOEnv.TXBAL_PAIRS) ELSE 1
 SampledCorruptions(b, c, a) ==
